@@ -201,7 +201,7 @@ def classify(kf, rec):
 def run(chk: Check) -> None:
     tier = chk.tier
     chk.cov["trusted_base"] = TRUSTED_BASE_COMMON + [
-        "the literal-span extractor is Marko's parse (plus TEMPLATE_TAG_PATTERN over raw text), applied identically to the parser input and to the output"]
+        "the literal-span extractor is Marko's parse plus a template-tag pattern written from the property text over each inline scope, applied identically to the parser input and to the output"]
     chk.cov["rule"] = ("(a) code blocks with content lines that look like fences / prefixes / blank lines / tags / typography bait, every fence kind and info string, "
                        "in every container nesting of the table CONTAINERS; (b) paragraphs, headings, table cells and list items dense with code spans, inline HTML, "
                        "template tags, comments, URLs, links with titles, reference labels, escapes; (c) generated documents; each x random option sets with "
